@@ -103,9 +103,21 @@ pub fn sample_value(spec: &CharacterDataSpec, v: AutosarVersion, ctr: &mut usize
     Some(match spec {
         CharacterDataSpec::Enum { items } => Val::Enum(items.iter().find(|(_, m)| v.compatible(*m))?.0.to_str().to_string()),
         CharacterDataSpec::Pattern { regex, check_fn, max_length } => {
-            let s = sample_for_regex(regex, ctr);
-            debug_assert!(check_fn(s.as_bytes()), "sample {s:?} does not match {regex}");
-            debug_assert!(max_length.is_none_or(|m| s.len() <= m));
+            *ctr += 1;
+            let fits = |s: &str| check_fn(s.as_bytes()) && max_length.is_none_or(|m| s.len() <= m);
+            let mut dummy = 0;
+            let candidates = [format!("n{}", *ctr), format!("N{}", *ctr), sample_for_regex(regex, &mut dummy)];
+            let s = match candidates.into_iter().find(|c| fits(c)) {
+                Some(s) => s,
+                None => {
+                    // shortest member of the pattern's language, from the harness's own automaton
+                    let dfa = super::regexdfa::Dfa::from_regex(regex).expect("regex compiles");
+                    let m = dfa.shortest_members()[dfa.start as usize].clone().expect("language not empty");
+                    let s = String::from_utf8(m).expect("ascii member");
+                    assert!(fits(&s), "no sample value for {regex}");
+                    s
+                }
+            };
             Val::Str(s)
         }
         CharacterDataSpec::String { .. } => Val::Str("text".into()),
@@ -172,6 +184,10 @@ pub fn wrap_in_path(path: &[Step], leaf: Node, v: AutosarVersion, ctr: &mut usiz
     let mut cur = leaf;
     for step in path[..path.len() - 1].iter().rev() {
         let mut parent = minimal_node(step.name, step.etype, v, ctr)?;
+        if cur.name == "SHORT-NAME" {
+            // the leaf is the parent's own SHORT-NAME: replace the generated one
+            parent.items.retain(|i| !matches!(i, super::tree::Item::Node(n) if n.name == "SHORT-NAME"));
+        }
         parent.items.push(super::tree::Item::Node(cur));
         cur = parent;
     }
